@@ -187,6 +187,8 @@ type Scenario struct {
 	CleanOptsN int `json:"clean_opts_n,omitempty"`
 	// CleanBefore: TestMain also calls Clean before m.Run (only used when Clean may not delete)
 	CleanBefore bool `json:"clean_before,omitempty"`
+	// SetGoflags: TestMain appends this to GOFLAGS (os.Setenv) before m.Run
+	SetGoflags string `json:"set_goflags,omitempty"`
 	Roots      []string         `json:"roots"`
 }
 
@@ -271,7 +273,7 @@ func cleanEnv(o RunOpt, outdir, scn string) []string {
 // exports; the flavour is a function of the scenario bytes.
 func ambientEnv(scn string) []string {
 	b, _ := os.ReadFile(scn)
-	fl := [][]string{nil, nil, {"COLUMNS=80", "LINES=24", "TERM=xterm-256color"}, {"COLUMNS=120", "TERM=dumb", "LC_ALL=tr_TR.UTF-8"},
+	fl := [][]string{nil, nil, {"COLUMNS=80", "LINES=24", "TERM=xterm-256color", "TERM_PROGRAM=iTerm.app", "VTE_VERSION=7600", "WT_SESSION=1", "CLICOLOR_FORCE=1", "FORCE_COLOR=3"}, {"COLUMNS=120", "TERM=dumb", "LC_ALL=tr_TR.UTF-8"},
 		{"COLUMNS=40", "TZ=Pacific/Kiritimati"}, {"COLUMNS=0", "TERM="}, {"COLUMNS=abc", "LINES=-1"}}
 	return fl[vkit.Hash("ambient-flavour", string(b))%uint64(len(fl))]
 }
